@@ -364,12 +364,20 @@ const (
 	nMsgKinds
 )
 
+// fxHugeHB, when non-zero, is the HeartBtInt of the Logon mkInbound builds (a value whose interval
+// does not fit time.Duration; only meaningful against a session without an upper heartbeat limit).
+var fxHugeHB int
+
 // mkInbound builds a well-formed inbound message of the given kind with symbolic contents.
 // It returns the bytes and the tag of a numeric body field ("" if none).
 func mkInbound(kind int, sender, target string, seq int) ([]byte, string) {
 	switch kind {
 	case mLogon:
-		m := fixgen.CreateLogon(string(zz.Bytes(1)), zz.IntIn(10, 99))
+		hbInt := zz.IntIn(10, 99)
+		if fxHugeHB != 0 {
+			hbInt = fxHugeHB
+		}
+		m := fixgen.CreateLogon(string(zz.Bytes(1)), hbInt)
 		if zz.Param(9)/2%2 == 1 {
 			m.SetResetSeqNumFlag(true)
 		}
